@@ -1686,3 +1686,311 @@ def _req_shape(req):
     else:
         kind += '|no-sid'
     return kind
+
+
+# ===========================================================================
+# C16  session table hygiene
+# ===========================================================================
+
+def check_hygiene(h, f=None):
+    f = f or Facts(h)
+    out = []
+    impl = f.impl
+    calls = [a for a in h.world.api_calls if a['seq_start'] is not None]
+    writes = {}
+    for a in calls:
+        if a['name'] in ('save_session', 'session') and 'sid' in a:
+            writes.setdefault(a['sid'], []).append(a)
+    for a in calls:
+        name = a['name']
+        if name not in ('send', 'get_session', 'save_session', 'session',
+                        'transport') or 'sid' not in a:
+            continue
+        sid = a['sid']
+        b = a.get('before')
+        s = f.sess.get(sid)
+        dead = b is None or b['closed']
+        racing = b is not None and b['closing'] and not b['closed']
+        if s is not None and s['disconnect'] and not dead:
+            d = s['disconnect'][0]
+            if abs(d['t'] - a['t_start']) <= EPS:
+                racing = True
+        if s is not None and not s['accepted'] and b is not None:
+            racing = True       # inside the rejecting connect handler
+        if racing:
+            continue
+        kind = 'unknown' if s is None else (
+            'rejected' if not s['accepted'] else 'disconnected')
+        if dead:
+            if name == 'send':
+                if a['exc']:
+                    out.append(V('dead-id-send-noop',
+                                 '%s|send-to-%s-id-raised|%s' % (
+                                     impl, kind, a['exc'].split(':')[0]),
+                                 'send() to the %s id %s raised %s' % (
+                                     kind, sid, a['exc'])))
+                elif a['t_end'] is None:
+                    out.append(V('dead-id-send-noop',
+                                 '%s|send-to-%s-id-blocked' % (impl, kind),
+                                 'send() to the %s id %s never returned' % (
+                                     kind, sid)))
+            else:
+                if a['t_end'] is None:
+                    continue
+                if not (a['exc'] or '').startswith('KeyError'):
+                    out.append(V('dead-id-keyerror',
+                                 '%s|%s-on-%s-id|%s' % (
+                                     impl, name, kind,
+                                     (a['exc'] or 'returned').split(':')[0]),
+                                 '%s(%r) on the %s id %s: %s' % (
+                                     name, sid, kind,
+                                     'raised ' + a['exc'] if a['exc'] else
+                                     'returned %r' % (a['ret'],),
+                                     '(KeyError expected)')))
+            continue
+        # live id
+        if a['exc'] and a['t_end'] is not None:
+            # the session may have ended while the call ran
+            aft = a.get('after')
+            if aft is None or aft['closed'] or aft['closing']:
+                continue
+            out.append(V('live-id-works', '%s|%s-on-live-id-raised|%s' % (
+                impl, name, a['exc'].split(':')[0]),
+                '%s(%r) on a live session raised %s' % (name, sid,
+                                                        a['exc'])))
+            continue
+        if name == 'transport' and a['t_end'] is not None:
+            want = 'websocket' if b['upgraded'] else 'polling'
+            aft = a.get('after') or b
+            if a['ret'] != want and aft['upgraded'] == b['upgraded']:
+                out.append(V('transport-api', '%s|transport-wrong' % impl,
+                             'transport(%r) returned %r, session is %s' % (
+                                 sid, a['ret'], want)))
+        if name == 'get_session' and a['t_end'] is not None and \
+                isinstance(a['ret'], dict):
+            got = a['ret']
+            owner = got.get('owner')
+            c = s['c'] if s else None
+            if owner is not None and owner != c:
+                out.append(V('session-isolation',
+                             '%s|foreign-session-data' % impl,
+                             'get_session(%r) of client %s returned data '
+                             'saved for client %s: %r' % (sid, c, owner,
+                                                          got)))
+                continue
+            ws = sorted(writes.get(sid, []), key=lambda w: w['seq_start'])
+            if any(w['seq_end'] is None or
+                   (w['seq_start'] < a['seq_end'] and
+                    w['seq_end'] > a['seq_start']) for w in ws):
+                continue        # overlapping write: grey
+            model = {}
+            ok = True
+            for w in ws:
+                if w['seq_end'] < a['seq_start']:
+                    if w['exc']:
+                        continue
+                    if w['name'] == 'save_session':
+                        model = dict(w['value'])
+                    else:
+                        model.update(w['value'])
+            if ok and got != model:
+                out.append(V('session-data', '%s|session-data-mismatch' %
+                             impl, 'get_session(%r) returned %r, the '
+                             'model holds %r' % (sid, got, model)))
+    # the table holds exactly the live sessions once things have settled
+    settle = f.I + 6 * f.T
+    last = 0.0
+    for s in f.sess.values():
+        for e in s['events']:
+            last = max(last, e['t'])
+    for c in h.clients:
+        if getattr(c, 'end_t', None) is not None:
+            last = max(last, c.end_t)
+    if f.monitor and f.end >= last + settle:
+        live = {sid for sid, s in f.sess.items()
+                if s['accepted'] and not s['disconnect']}
+        table = set(h.final['table'].keys())
+        for sid in sorted(table - live):
+            st = h.final['table'][sid]
+            s = f.sess.get(sid)
+            kind = 'unknown' if s is None else (
+                'rejected' if not s['accepted'] else 'disconnected')
+            out.append(V('table-exact', '%s|%s-session-still-in-table' % (
+                impl, kind), 'at t=%.4f (last event t=%.4f, settle %.4g) '
+                'the table still holds the %s session %s: %r' % (
+                    f.end, last, settle, kind, sid, st)))
+            break
+        for sid in sorted(live - table):
+            out.append(V('table-exact', '%s|live-session-missing' % impl,
+                         'session %s got no disconnect event but is not in '
+                         'the table at t=%.4f' % (sid, f.end)))
+            break
+    return out
+
+
+# ===========================================================================
+# C11  OPEN handshake
+# ===========================================================================
+
+import json as _json
+
+
+def _cookie_expect(cfg_cookie, sid):
+    """Reference Set-Cookie value for a configuration, or None."""
+    if not cfg_cookie:
+        return None
+    if isinstance(cfg_cookie, dict):
+        out = cfg_cookie.get('name', 'io') + '=' + sid
+        for k, v in cfg_cookie.items():
+            if k == 'name':
+                continue
+            if v == '__callable__':
+                v = 'called'
+            if v is True:
+                out += '; ' + k
+            else:
+                out += '; ' + k + '=' + v
+        return out
+    return cfg_cookie + '=' + sid + '; path=/; SameSite=Lax'
+
+
+def check_open(h, f=None):
+    f = f or Facts(h)
+    out = []
+    impl = f.impl
+    cfg = h.plan.get('config', {})
+    server = h.world.server
+    pi = cfg.get('ping_interval', 25)
+    I, G = (pi[0], pi[1]) if isinstance(pi, (list, tuple)) else (pi, 0)
+    T = cfg.get('ping_timeout', 20)
+    want = {'pingInterval': (I + G) * 1000, 'pingTimeout': T * 1000,
+            'maxPayload': cfg.get('max_http_buffer_size', 1000000)}
+    by_rid = {}
+    for e in h.app.events:
+        if e['ev'] == 'connect' and e.get('rid') is not None:
+            by_rid.setdefault(e['rid'], []).append(e)
+    for c in h.clients:
+        req = c.open_req
+        if req is None or req.seq_arrive is None:
+            continue
+        evs = by_rid.get(req.rid, [])
+        if len(evs) > 1:
+            out.append(V('one-session', '%s|open-created-%d-sessions' % (
+                impl, len(evs)), 'open request %d ran the connect handler '
+                '%d times' % (req.rid, len(evs))))
+        outcome = evs[0].get('outcome') if evs else None
+        accepted = outcome in ('none', 'true')
+        via = 'ws' if req.kind == 'ws' else 'polling'
+        if evs and not accepted:
+            sid = evs[0]['sid']
+            # rejected: 401 carrying the value when truthy
+            val = {'false': False, 'zero': 0, 'empty': '', 'text': 'go away',
+                   'dict': {'code': 7, 'why': 'no'}, 'list': ['no', 1],
+                   'emptylist': [], 'raise': False}.get(outcome)
+            if req.kind == 'http':
+                if req.status != 401:
+                    out.append(V('reject-401', '%s|rejected-open-status-%s|%s'
+                                 % (impl, req.status, outcome),
+                                 'connect handler outcome %s but the open '
+                                 'was answered %s' % (outcome, req.status)))
+                else:
+                    try:
+                        body = _json.loads(req.resp_body.decode('utf-8'))
+                    except ValueError:
+                        body = GREYBODY
+                    exp = val if val else 'Unauthorized'
+                    if body is GREYBODY or not R.same_value(body, exp):
+                        out.append(V('reject-401', '%s|rejected-open-body|%s'
+                                     % (impl, outcome),
+                                     '401 body %r does not carry %r' % (
+                                         req.resp_body[:60], exp)))
+            else:
+                if req.ws.accepted and c.sid is not None:
+                    out.append(V('reject-401', '%s|rejected-ws-open-accepted'
+                                 '|%s' % (impl, outcome),
+                                 'connect handler outcome %s but the '
+                                 'WebSocket open delivered an OPEN packet'
+                                 % outcome))
+            if sid in h.final['table']:
+                out.append(V('reject-discards', '%s|rejected-session-in-'
+                             'table|%s' % (impl, outcome),
+                             'rejected session %s is still in the table' %
+                             sid))
+            continue
+        if not evs:
+            continue
+        sid = evs[0]['sid']
+        if req.kind == 'http' and req.status != 200:
+            out.append(V('open-accepted', '%s|accepted-open-status-%s' % (
+                impl, req.status), 'connect handler accepted (%s) but the '
+                'open was answered %s' % (outcome, req.status)))
+            continue
+        info = c.open_info
+        if info is None:
+            if req.kind == 'http' or req.ws.accepted:
+                if c.decode_errors:
+                    continue    # transformation problems are C19's
+                out.append(V('open-first', '%s|no-open-packet|%s' % (impl,
+                                                                      via),
+                             'open request %d was accepted but no OPEN '
+                             'packet came first' % req.rid))
+            continue
+        first = [r for r in c.recv if r['ref'] in (req.rid, getattr(
+            c.open_ws, 'wid', -1))][:1]
+        if first and first[0]['ptype'] != R.OPEN:
+            out.append(V('open-first', '%s|first-packet-%s' % (
+                impl, first[0]['ptype']), 'first packet is not OPEN'))
+        if info.get('sid') != sid:
+            out.append(V('open-sid', '%s|sid-mismatch' % impl,
+                         'OPEN sid %r, connect handler saw %r' % (
+                             info.get('sid'), sid)))
+        for key, val in want.items():
+            got = info.get(key)
+            if not isinstance(got, (int, float)) or isinstance(got, bool) \
+                    or abs(got - val) > 1e-6:
+                out.append(V('open-fields', '%s|%s-wrong' % (impl, key),
+                             'OPEN %s=%r, configuration says %r (interval '
+                             '%r grace %r timeout %r)' % (key, got, val, I,
+                                                          G, T)))
+        ups = info.get('upgrades')
+        if not isinstance(ups, list) or any(u != 'websocket' for u in ups):
+            out.append(V('open-upgrades', '%s|upgrades-garbage' % impl,
+                         'upgrades=%r' % (ups,)))
+        elif 'websocket' in ups:
+            if via == 'ws':
+                out.append(V('open-upgrades', '%s|upgrades-on-websocket' %
+                             impl, 'a WebSocket open advertises an upgrade'))
+            # advertised => a correct attempt must be accepted
+            for u in c.upgrades[:1]:
+                if u['spec'].get('steps') is None and \
+                        want['maxPayload'] >= 6 and \
+                        not u['spec'].get('query') and u.get('finished') \
+                        and not u.get('ok') and not f.causes(sid) and \
+                        not c.spec.get('poll', {}).get('extra') and \
+                        not any(fl.get('c') == c.idx
+                                for fl in h.plan.get('faults', [])):
+                    out.append(V('open-upgrades',
+                                 '%s|advertised-upgrade-refused|transports='
+                                 '%s' % (impl, '+'.join(server.transports)),
+                                 'OPEN advertised upgrades=%r (transports='
+                                 '%r, allow_upgrades=%r) but a correct '
+                                 'upgrade was refused (%r)' % (
+                                     ups, server.transports,
+                                     server.allow_upgrades,
+                                     u.get('refused'))))
+        # cookie
+        if req.kind == 'http':
+            sc = [v for k, v in (req.resp_headers or [])
+                  if k.lower() == 'set-cookie']
+            exp = _cookie_expect(cfg.get('cookie'), sid)
+            if exp is None and sc:
+                out.append(V('open-cookie', '%s|cookie-not-configured' %
+                             impl, 'Set-Cookie %r without configuration' %
+                             sc))
+            elif exp is not None and sc != [exp]:
+                out.append(V('open-cookie', '%s|cookie-wrong' % impl,
+                             'Set-Cookie %r, expected %r' % (sc, exp)))
+    return out
+
+
+GREYBODY = object()
